@@ -116,6 +116,9 @@ func (c01) Gen(rs uint64, tier string, race bool) interface{} {
 			op.J = r.Pick(0, 0, 0, 1) // 1 = wrong length
 		case "append", "concat":
 			m := 1 + r.Intn(3)
+			if r.Chance(0.08) {
+				m = 0 // the other alignment is empty
+			}
 			p2 := r.Perm(len(c01Names))
 			for i := 0; i < m; i++ {
 				op.Other = append(op.Other, HRow{c01Names[p2[i]], c01Seq(r, 12)})
@@ -618,6 +621,9 @@ func (c01) Run(ctx *Ctx, ci interface{}) (o Outcome) {
 				if other.AddSequence(r.Name, s, "") == nil {
 					orows = append(orows, HRow{r.Name, s})
 				}
+			}
+			if len(orows) == 0 {
+				ol = 0 // an alignment without rows has no columns to add
 			}
 			al2 := max(m.length(), 0)
 			for i := range m.rows {
